@@ -745,24 +745,51 @@ def _fold_sites(fn: FuncInfo) -> List[Tuple[str, Set[Tuple[str, Tuple]], ast.AST
     from .guards import conds_at
 
     folded: Dict[str, str] = {}
-    for n in walk_own(fn.node):
-        if isinstance(n, ast.Assign) and len(n.targets) == 1 and isinstance(n.targets[0], ast.Name) and isinstance(n.value, ast.Call) and isinstance(n.value.func, ast.Attribute) and n.value.func.attr in FOLDS:
-            folded[n.targets[0].id] = n.value.func.attr
+
+    def fold_of(v: Optional[ast.AST]) -> Optional[str]:
+        """The case fold a string value has been through: `x.upper()`, a name bound to one, a further
+        spelling-preserving string method on one (`folded.strip()`), or text rebuilt from a parsed integer
+        (`f"EPSG:{int(...)}"`: spelling-free, matches any fold)."""
+        if isinstance(v, ast.Call) and isinstance(v.func, ast.Attribute):
+            if v.func.attr in FOLDS:
+                return fold_of(v.func.value) or v.func.attr
+            if v.func.attr in ("strip", "lstrip", "rstrip", "replace", "removeprefix", "removesuffix"):
+                return fold_of(v.func.value)
+        if isinstance(v, ast.Name) and v.id in folded:
+            return folded[v.id]
+        if isinstance(v, ast.JoinedStr):
+            parts = [fold_of(x.value) or ("*" if _is_parsed_int(x.value) else None) for x in v.values if isinstance(x, ast.FormattedValue)]
+            if parts and all(parts):
+                named = [x for x in parts if x != "*"]
+                return named[0] if named else "*"
+        return None
+
+    int_names: Set[str] = set()
+
+    def _is_parsed_int(v: ast.AST) -> bool:
+        if isinstance(v, ast.Call) and call_name(v) == "int":
+            return True
+        return isinstance(v, ast.Name) and v.id in int_names
+
+    for _ in range(3):
+        for n in walk_own(fn.node):
+            if isinstance(n, ast.Assign) and len(n.targets) == 1 and isinstance(n.targets[0], ast.Name):
+                if isinstance(n.value, ast.Call) and call_name(n.value) == "int":
+                    int_names.add(n.targets[0].id)
+                if isinstance(n.value, ast.Call) and isinstance(n.value.func, ast.Attribute) and n.value.func.attr in FOLDS and fold_of(n.value.func.value) is None:
+                    folded[n.targets[0].id] = n.value.func.attr
+    primary = set(folded)
     cond = Conditions(fn.body)
     out = []
     for n in walk_own(fn.node):
         v = None
         if isinstance(n, ast.Return):
             v = n.value
-        elif isinstance(n, ast.Assign) and len(n.targets) == 1 and isinstance(n.targets[0], ast.Name) and n.targets[0].id not in folded:
+        elif isinstance(n, ast.Assign) and len(n.targets) == 1 and isinstance(n.targets[0], ast.Name) and n.targets[0].id not in primary:
             v = n.value
         if v is None:
             continue
-        m = None
-        if isinstance(v, ast.Call) and isinstance(v.func, ast.Attribute) and v.func.attr in FOLDS:
-            m = v.func.attr
-        elif isinstance(v, ast.Name) and v.id in folded:
-            m = folded[v.id]
+        m = fold_of(v)
         if m is None:
             continue
         out.append((m, _cond_sig(conds_at(cond, n)), n))
@@ -777,12 +804,12 @@ def _keynorm(fi: FuncInfo, kf: FuncInfo) -> List[Instance]:
     vsites = _fold_sites(fi)
     for m, sig, st in ksites:
         csig = {s_ for s_ in sig if s_[0] not in ("isinstance",)}
-        match = [v for v in vsites if v[0] == m and {s_ for s_ in v[1] if s_[0] != "isinstance"} == csig]
+        match = [v for v in vsites if v[0] in (m, "*") and {s_ for s_ in v[1] if s_[0] != "isinstance"} == csig]
         cid = f"{fi.qual}#KEYNORM:{m}|{','.join(sorted(f'{a}{list(b)}' for a, b in csig)) or 'always'}"
         if match:
             out.append(Instance("R-CACHE", cid, OK, f"key folds with .{m}() under {sorted(csig) or 'no condition'} and the cached value is folded under the same test", kf.where(st)))
         else:
-            have = sorted({tuple(sorted(v[1])) for v in vsites if v[0] == m})
+            have = sorted({tuple(sorted(v[1])) for v in vsites if v[0] in (m, "*")})
             out.append(Instance("R-CACHE", cid, BAD,
                                 f"the key is folded with .{m}() under {sorted(csig) or 'no condition'} but {fi.name} folds its result only under {have or 'nothing'}: differently spelled arguments share an entry whose value keeps the spelling that came first (history-dependent str/hash/token)", kf.where(st)))
     return out
